@@ -10,7 +10,7 @@ from .xt import veq
 VMODES = ["ramp", "extreme", "minimal", "long", "emptyref"]  # emptyref: references bound to arrays without items (types with such references only)
 PY_FORMS = ["py", "py-args", "py-rows-view"]  # py-args: the value of every struct-typed FIELD is a 1-tuple of constructor arguments (documented tuple dispatch)
 ND = ["nd", "ndF", "ndS", "ndD", "ndR", "ndFD", "ndTD", "ndB"]
-XOBJ = ["xobj-same", "xobj-other", "xobj-ctx", "xobj-kind", "xobj-nested", "xobj-slack", "ref-same", "ref-foreign", "xobj-view", "xobj-nested-view", "xobj-twin", "xobj-capslack",
+XOBJ = ["xobj-same", "xobj-other", "xobj-ctx", "xobj-kind", "xobj-nested", "xobj-nested-lastslack", "xobj-slack", "ref-same", "ref-foreign", "xobj-view", "xobj-nested-view", "xobj-twin", "xobj-capslack",
         "xobj-dyn", "xobj-dyn-view", "xobj-dyn-len"]  # xobj-dyn*: a static-shape array built from an object of the all-dynamic class of the same shape
 CAP = ["cap", "cap-np"]  # cap-np: the capacities are numpy integers (a length computed with numpy)
 # arrays of static items given by their dynamic extents (python int / small numpy integers), items assigned one by one afterwards
@@ -86,6 +86,10 @@ def forms_for(t, v, want):
                 out.append(f)
         elif f == "xobj-slack":
             if has_str and xt.py_expressible(t, v):
+                out.append(f)
+        elif f == "xobj-nested-lastslack":
+            if has_str and xt.py_expressible(t, v) and (t[0] == "St" and any(ft[0] in ("St", "A") and any(s_[0] == "Str" for s_ in xt.subtypes(ft)) for _, ft in t[1])
+                                                        or t[0] == "A" and t[1][0] in ("St", "A") and any(s_[0] == "Str" for s_ in xt.subtypes(t[1]))):
                 out.append(f)
         elif f == "xobj-capslack":
             if has_str and xt.py_expressible(t, v):
@@ -238,6 +242,35 @@ def nested_xobj_arg(t, v):
     return rec((), 0)
 
 
+def lastslack_source(t, v, **kw):
+    """an object holding v in which ONLY the string that comes last (not below a reference) was created 9 bytes longer and
+    then assigned its final value: every stored offset equals the one planned from the values, the total size does not"""
+    from . import hand
+
+    leaves = [(p_, lt, lv) for p_, lt, lv in xt.leaf_paths(t, v) if lt[0] == "Str" and not any(q in ("*", "#") for q in p_)]
+    if not leaves or t[0] == "Str":
+        return xt.construct(t, xt.to_py(t, v), **kw)
+    p_, lt, lv = leaves[-1]
+    src = xt.construct(t, xt.to_py(t, xt.set_path(v, p_, lv + "#" * 9)), **kw)
+    hand.assign(t, src, p_, lv)
+    return src
+
+
+def nested_lastslack_arg(t, v):
+    """as nested_xobj_arg; every child object has spare room behind its last string only"""
+    other = place.traced("np", 0)
+    if t[0] == "St":
+        return {n: (lastslack_source(ft, v[n], _buffer=other) if ft[0] in ("St", "A") else xt.to_py(ft, v[n])) for n, ft in t[1]}
+    shape = v["shape"]
+
+    def rec(prefix, d):
+        if d == len(shape):
+            return lastslack_source(t[1], v["items"][prefix], _buffer=other) if t[1][0] in ("St", "A") else xt.to_py(t[1], v["items"][prefix])
+        return [rec(prefix + (i,), d + 1) for i in range(shape[d])]
+
+    return rec((), 0)
+
+
 def inflate(t, v):
     """same value with every string 9 bytes longer (always one slot more)"""
     k = t[0]
@@ -374,6 +407,9 @@ def execute(t, v, form, pname, salt=0):
         o.size_model = None
     elif form in LEN:
         arg = len_arg(t, v, LEN_KIND[form])
+    elif form == "xobj-nested-lastslack":
+        arg = nested_lastslack_arg(t, v)
+        o.size_model = None  # anything between the minimal layout and the sources' extents is legitimate
     elif form == "xobj-nested":
         arg = nested_xobj_arg(t, v)
     elif form == "xobj-nested-view":
@@ -388,7 +424,7 @@ def execute(t, v, form, pname, salt=0):
         o.size_model = None if form == "ref-same" else o.size_model
         if pl.buf is not None:
             pl.buf.log.clear()
-    elif form in XOBJ and form not in ("xobj-nested", "xobj-nested-view"):
+    elif form in XOBJ and form not in ("xobj-nested", "xobj-nested-view", "xobj-nested-lastslack"):
         if form == "xobj-same":
             srcbuf = pl.buf if pl.buf is not None else None
             kw = dict(_buffer=srcbuf) if srcbuf is not None else dict(_context=place.ctx(0))
